@@ -70,13 +70,6 @@ theorem kind_complete (f : Frame) (a : Addr) (h : partition f = some a) :
     simp only [kindFromFrame, bitTest_eq, getSliceRaw_eq, Nat.reducePow, Nat.reduceAdd, Nat.reduceSub]
     grind
 
-/-- the 7-bit address field value of an address object -/
-def addrByte : Addr → Nat
-  | .gearBroadcast | .deviceBroadcast => 127
-  | .gearUnaddressed | .deviceUnaddressed => 126
-  | .gearGroup g | .deviceGroup g => 64 + g
-  | .gearShort s | .deviceShort s => s
-
 theorem addrByte_lt (a : Addr) (hv : a.Valid) : addrByte a < 128 := by
   cases a <;> simp only [addrByte, Valid] at * <;> omega
 
